@@ -76,8 +76,9 @@ check('C04', 'E2-world',
       'for the full result and requires get(view) == get()[view] in shape and content, and IndexedData values / masks / statistics / '
       'histograms to equal the parent slice. The attribute-kind x selection-kind x view-kind product is an input space: coverage is what '
       'the workload reaches (reported as fingerprints), not an enumeration.',
-      'glue is its own reference for the full array (a result that is wrong in full and under the view alike is invisible here). No generator '
-      'guard is left: the twelve (dependency class, view kind) findings of earlier rounds were repaired in /repo (51f37b9, e5ca478, a64e1b6, 8ff440a).',
+      'glue is its own reference for the full array (a result that is wrong in full and under the view alike is invisible here). The twelve '
+      '(dependency class, view kind) findings of earlier rounds were repaired in /repo (51f37b9, e5ca478+98935aa, a64e1b6, 8ff440a, eb4dcd0); two guards are '
+      'left: index-array tuples with negative entries on world-coordinate-dependent attributes / selections (open findings F-C04-17,18). Python lists are not generated as views.',
       'deterministic simulation (history of reads / index changes / updates) + view-consistency invariant at observation time',
       'DESIGN.md section 7 C04')
 
@@ -134,7 +135,7 @@ check('C17', 'E2-world',
       'outside a collection and hub delay windows, with a recording hub listener; after every step structural invariants on the real '
       'object, and at quiescence the multiset of structural messages must equal the diff of the before/after snapshots (nothing changed '
       'unannounced, nothing announced that did not happen). Sampling, not proof.',
-      'Across a delay window only net requirements are checked; update_values_from_data to another ndim and update_id under dependent derived attributes are open findings excluded by guards.',
+      'Across a delay window only net requirements are checked (plus a listening client that replays the announcements); update_id under dependent derived attributes is an open finding excluded by a guard; assigning an identifier the label it already has is not generated.',
       'deterministic simulation: seeded mutation history with rejected calls and delay windows + invariant and message-vs-snapshot-diff oracle',
       'DESIGN.md section 7 C17')
 
